@@ -141,14 +141,14 @@ CHECKS = {
              "subset of vBuckets with a stored document (plus foreign vBuckets' documents) x document fields in the full uint64 range with "
              "boundary classes (0,1,2^32+-1,2^53+-1,2^63+-1,2^64-1; start<=seq<=end NOT required) x high-seqno vector >= stored seq x failover "
              "logs of 1..3 entries -> every Client.OpenStream offset compared field by field; read-only mode additionally acks+saves+closes and "
-             "requires the wrapped store untouched. (b) Save->Load round trips through the real file backend, the real Couchbase xattr backend "
+             "requires the wrapped store untouched. (a') histories of deliveries / acks / saves / crashes on the history engine with the REAL file backend behind the real checkpoint.Save: every reopen must start from what the last save persisted for every vBucket, including vBuckets idle since the previous save. (b) Save->Load round trips through the real file backend, the real Couchbase xattr backend "
              "on the simulated node (only-dirty writes observed as KV ops, two generations), and read-only wrappers (no KV write reaches the "
              "node). (c) real client.OpenStream on the simulated node: DCP_STREAM_REQ extras (start, end, vbuuid, snapshot) and the collection "
              "filter compared with the offset. (d) checkpoint JSON document encode/decode identity (rapid + native fuzz). non-trivial = a field "
              ">= 2^53 (beyond float64 exactness) and, for (a), a strict non-empty subset of vBuckets with documents",
         assumptions=["high seqno >= stored seqno (the opposite is C15's fail-stop)", "file backend: all assigned vBuckets or none have a document (one file for all)",
                      "simnode's KV / sub-document / DCP_STREAM_REQ handling is the trusted model of the server"],
-        units=[rapid("TestC02_Open", 12000, 1000000), rapid("TestC02_RoundTrip", 2400, 100000), rapid("TestC02_Wire", 1600, 100000),
+        units=[rapid("TestC02_Open", 12000, 1000000), rapid("TestC02_FileHistory", 3000, 200000), rapid("TestC02_RoundTrip", 2400, 100000), rapid("TestC02_Wire", 1600, 100000),
                rapid("TestC02_JSON", 10000, 1000000), fuzz("FuzzC02Doc", 120)],
         min_share=dict(any={"latest_reset_applies": ["open_cases", 0.08], "read_only": ["open_cases", 0.15], "backend_file": ["open_cases", 0.2]}),
     ),
